@@ -24,6 +24,7 @@ type Violation struct {
 	Kind  string          `json:"kind"` // case kind (replay dispatch)
 	Case  json.RawMessage `json:"case"` // literal case input
 	Count int64           `json:"count"`
+	Shard int             `json:"shard,omitempty"` // worker shard that raised it (set by the parent)
 }
 
 type curCase struct {
